@@ -17,12 +17,24 @@
 package grpc
 
 import (
+	"context"
+	"errors"
+	"io"
+	"net"
 	"runtime"
+	"sort"
+	"strconv"
+	"strings"
 	"sync"
 	"sync/atomic"
 	"testing"
 	"testing/synctest"
 	"time"
+
+	"google.golang.org/grpc/codes"
+	"google.golang.org/grpc/credentials/insecure"
+	"google.golang.org/grpc/encoding"
+	"google.golang.org/grpc/status"
 )
 
 var vServerStopT *testing.T
@@ -159,9 +171,326 @@ func vServerStopExecStress(cfg []int64, ops [][]int64) (obs [][]int64, nontrivia
 	return [][]int64{{n, mx, completed.Load()}}, mx == n, []string{"stress"}
 }
 
+// ---- cfg [2, workers, waitForHandlers]: a real Server over net.Pipe inside a synctest bubble ----
+//
+//	[1, k] start RPC number id = (count so far); k = 1: the handler answers with a 100KB message
+//	       and the client does not read until [6, id] (response blocked by flow control: the
+//	       client uses a static 64KB stream window); k = 2: the handler ignores its context
+//	       (a watcher goroutine still records the cancellation)
+//	[2, id, code] release handler id: it returns status code (0 = OK)
+//	[3] GracefulStop in a goroutine   [4] Stop in a goroutine   [6, id] client id starts reading
+//	[5, id] the client cancels RPC id
+//	obs = [op code, args..., events of this op as triples (type, id, code) sorted]:
+//	10 handler started, 11 handler returned code, 12 handler saw its context cancelled,
+//	13 client's final status code, 14 a GracefulStop call returned, 15 a Stop call returned
+
+type vServerStopCodec struct{}
+
+func (vServerStopCodec) Name() string { return "vserverstop" }
+func (vServerStopCodec) Marshal(v any) ([]byte, error) {
+	b, ok := v.(*[]byte)
+	if !ok {
+		return nil, errors.New("vserverstop: bad type")
+	}
+	return *b, nil
+}
+func (vServerStopCodec) Unmarshal(data []byte, v any) error {
+	b, ok := v.(*[]byte)
+	if !ok {
+		return errors.New("vserverstop: bad type")
+	}
+	*b = append([]byte(nil), data...)
+	return nil
+}
+
+func init() { encoding.RegisterCodec(vServerStopCodec{}) }
+
+type vServerStopLis struct {
+	ch   chan net.Conn
+	done chan struct{}
+	once sync.Once
+}
+
+func (l *vServerStopLis) Accept() (net.Conn, error) {
+	select {
+	case c := <-l.ch:
+		return c, nil
+	case <-l.done:
+		return nil, errors.New("verif: listener closed")
+	}
+}
+func (l *vServerStopLis) Close() error   { l.once.Do(func() { close(l.done) }); return nil }
+func (l *vServerStopLis) Addr() net.Addr { return &net.UnixAddr{Name: "verif", Net: "unix"} }
+
+type vServerStopRel struct{ code int64 }
+
+type vServerStopEnv struct {
+	mu      sync.Mutex
+	ev      [][3]int64
+	gates   map[int64]chan vServerStopRel
+	kind    map[int64]int64
+	ret     map[int64]bool
+	started map[int64]bool
+}
+
+func (e *vServerStopEnv) log(t, id, code int64) {
+	e.mu.Lock()
+	e.ev = append(e.ev, [3]int64{t, id, code})
+	e.mu.Unlock()
+}
+
+func (e *vServerStopEnv) take() []int64 {
+	e.mu.Lock()
+	ev := e.ev
+	e.ev = nil
+	e.mu.Unlock()
+	sort.Slice(ev, func(i, j int) bool {
+		for k := 0; k < 3; k++ {
+			if ev[i][k] != ev[j][k] {
+				return ev[i][k] < ev[j][k]
+			}
+		}
+		return false
+	})
+	var out []int64
+	for _, x := range ev {
+		out = append(out, x[0], x[1], x[2])
+	}
+	return out
+}
+
+func (e *vServerStopEnv) handler(_ any, ss ServerStream) error {
+	m, _ := MethodFromServerStream(ss)
+	id, _ := strconv.ParseInt(m[strings.LastIndex(m, "/")+1:], 10, 64)
+	var req []byte
+	ss.RecvMsg(&req)
+	e.mu.Lock()
+	g, kind := e.gates[id], e.kind[id]
+	e.started[id] = true
+	e.mu.Unlock()
+	e.log(10, id, 0)
+	finish := func(rel vServerStopRel) error {
+		if kind == 1 {
+			payload := make([]byte, 100*1024)
+			ss.SendMsg(&payload)
+		}
+		e.mu.Lock()
+		e.ret[id] = true
+		e.mu.Unlock()
+		e.log(11, id, rel.code)
+		if rel.code == 0 {
+			return nil
+		}
+		return status.Error(codes.Code(rel.code), "verif")
+	}
+	if kind == 2 {
+		go func() {
+			<-ss.Context().Done()
+			e.mu.Lock()
+			done := e.ret[id]
+			e.mu.Unlock()
+			if !done {
+				e.log(12, id, 0)
+			}
+		}()
+		return finish(<-g)
+	}
+	select {
+	case rel := <-g:
+		return finish(rel)
+	case <-ss.Context().Done():
+		e.log(12, id, 0)
+		e.log(11, id, 1)
+		return status.Error(codes.Canceled, "verif: cancelled")
+	}
+}
+
+func vServerStopExecSrv(cfg []int64, ops [][]int64) (obs [][]int64, nontrivial bool, tags []string) {
+	workers, wfh := int64(0), int64(0)
+	if len(cfg) > 1 {
+		workers = cfg[1]
+	}
+	if len(cfg) > 2 {
+		wfh = cfg[2]
+	}
+	sawG, sawBlockedG, sawStop := false, false, false
+	synctest.Test(vServerStopT, func(t *testing.T) {
+		env := &vServerStopEnv{gates: map[int64]chan vServerStopRel{}, kind: map[int64]int64{}, ret: map[int64]bool{}, started: map[int64]bool{}}
+		lis := &vServerStopLis{ch: make(chan net.Conn), done: make(chan struct{})}
+		sopts := []ServerOption{UnknownServiceHandler(env.handler)}
+		if workers > 0 && workers <= 8 {
+			sopts = append(sopts, NumStreamWorkers(uint32(workers)))
+		}
+		if wfh == 1 {
+			sopts = append(sopts, WaitForHandlers(true))
+		}
+		srv := NewServer(sopts...)
+		go srv.Serve(lis)
+		dialer := func(ctx context.Context, _ string) (net.Conn, error) {
+			c1, c2 := net.Pipe()
+			select {
+			case lis.ch <- c2:
+				return c1, nil
+			case <-lis.done:
+				c1.Close()
+				c2.Close()
+				return nil, errors.New("verif: listener closed")
+			case <-ctx.Done():
+				c1.Close()
+				c2.Close()
+				return nil, ctx.Err()
+			}
+		}
+		cc, err := NewClient("passthrough:///verif", WithTransportCredentials(insecure.NewCredentials()), WithContextDialer(dialer),
+			WithStaticStreamWindowSize(65535), WithStaticConnWindowSize(1<<20)) // static stream window: a 100KB response blocks on flow control
+		if err != nil {
+			panic("verif: NewClient: " + err.Error())
+		}
+		ctx, cancel := context.WithCancel(context.Background())
+		readGates := map[int64]chan struct{}{}
+		released := map[int64]bool{}
+		reading := map[int64]bool{}
+		cancels := map[int64]context.CancelFunc{}
+		ccancelled := map[int64]bool{}
+		cc.Connect()
+		synctest.Wait()
+		desc := &StreamDesc{StreamName: "M", ClientStreams: true, ServerStreams: true}
+		nextID := int64(0)
+		pending := 0              // stop calls that have not returned
+		stubborn := func() bool { // a kind-2 handler was started and not released
+			env.mu.Lock()
+			defer env.mu.Unlock()
+			for id, st := range env.started {
+				if st && env.kind[id] == 2 && !released[id] {
+					return true
+				}
+			}
+			return false
+		}
+		for _, op := range ops {
+			w := append([]int64(nil), op...)
+			// Server.stop holds s.mu while it waits for handlersWG, so a second stop call would
+			// block on a mutex (not a quiescent state): skipped while a stop call is pending and
+			// a handler that ignores cancellation is running
+			if len(op) == 1 && (op[0] == 3 || op[0] == 4) && pending > 0 && stubborn() {
+				op = nil
+			}
+			switch {
+			case len(op) == 2 && op[0] == 1 && op[1] >= 0 && op[1] <= 2 && nextID < 64:
+				id := nextID
+				nextID++
+				env.mu.Lock()
+				env.gates[id] = make(chan vServerStopRel, 1)
+				env.kind[id] = op[1]
+				env.mu.Unlock()
+				rg := make(chan struct{})
+				readGates[id] = rg
+				if op[1] != 1 {
+					close(rg)
+					reading[id] = true
+				}
+				rctx, rcancel := context.WithCancel(ctx)
+				cancels[id] = rcancel
+				go func() {
+					cs, err := cc.NewStream(rctx, desc, "/v.S/"+strconv.FormatInt(id, 10), CallContentSubtype("vserverstop"))
+					if err == nil {
+						req := []byte{1}
+						if err = cs.SendMsg(&req); err == nil || err == io.EOF {
+							cs.CloseSend()
+							<-rg
+							for {
+								var resp []byte
+								if err = cs.RecvMsg(&resp); err != nil {
+									break
+								}
+							}
+						}
+					}
+					if err == io.EOF {
+						env.log(13, id, 0)
+					} else {
+						env.log(13, id, int64(status.Code(err)))
+					}
+				}()
+			case len(op) == 3 && op[0] == 2 && op[1] >= 0 && op[1] < nextID && op[2] >= 0 && op[2] <= 16 && !released[op[1]]:
+				released[op[1]] = true
+				env.mu.Lock()
+				g := env.gates[op[1]]
+				env.mu.Unlock()
+				g <- vServerStopRel{code: op[2]}
+			case len(op) == 1 && op[0] == 3:
+				sawG = true
+				pending++
+				go func() { srv.GracefulStop(); env.log(14, 0, 0) }()
+			case len(op) == 1 && op[0] == 4:
+				sawStop = true
+				pending++
+				go func() { srv.Stop(); env.log(15, 0, 0) }()
+			case len(op) == 2 && op[0] == 6 && op[1] >= 0 && op[1] < nextID && !reading[op[1]]:
+				reading[op[1]] = true
+				close(readGates[op[1]])
+			case len(op) == 2 && op[0] == 5 && op[1] >= 0 && op[1] < nextID && !ccancelled[op[1]]:
+				ccancelled[op[1]] = true
+				cancels[op[1]]()
+			default:
+				w = []int64{0}
+			}
+			synctest.Wait()
+			// let 2s of fake time pass: the server transport closes a connection 1s after its
+			// writer stopped, the client's reconnect back-off runs (the listener is closed)
+			time.Sleep(2 * time.Second)
+			synctest.Wait()
+			evs := env.take()
+			for i := 0; i+2 < len(evs); i += 3 {
+				if evs[i] == 14 || evs[i] == 15 {
+					pending--
+				}
+			}
+			if len(op) == 1 && op[0] == 3 {
+				blocked := true
+				for i := 0; i+2 < len(evs); i += 3 {
+					if evs[i] == 14 {
+						blocked = false
+					}
+				}
+				if blocked {
+					sawBlockedG = true
+				}
+			}
+			obs = append(obs, append(w, evs...))
+		}
+		// cleanup: every handler is released first (Stop with WaitForHandlers waits for them
+		// while holding the server mutex)
+		for id := int64(0); id < nextID; id++ {
+			if !released[id] {
+				env.mu.Lock()
+				g := env.gates[id]
+				env.mu.Unlock()
+				g <- vServerStopRel{code: 2}
+			}
+		}
+		synctest.Wait()
+		cancel()
+		synctest.Wait()
+		srv.Stop()
+		for id, rg := range readGates {
+			if !reading[id] {
+				close(rg)
+			}
+		}
+		cc.Close()
+		lis.Close()
+		synctest.Wait()
+	})
+	return obs, sawG && sawBlockedG || sawStop, []string{"server"}
+}
+
 func vServerStopExec(cfg []int64, ops [][]int64) ([][]int64, bool, []string) {
 	if len(cfg) > 0 && cfg[0] == 1 {
 		return vServerStopExecStress(cfg, ops)
+	}
+	if len(cfg) > 0 && cfg[0] == 2 {
+		return vServerStopExecSrv(cfg, ops)
 	}
 	return vServerStopExecSeq(cfg, ops)
 }
@@ -181,6 +510,59 @@ func vServerStopGen(r *vRand, tier string, idx int) (cfg []int64, ops [][]int64)
 	if idx < 10 {
 		return []int64{1, r.PickI64(1, 2, 3, 8, 100), 3000}, [][]int64{{int64(r.Intn(1 << 30))}}
 	}
+	G, S := []int64{3}, []int64{4}
+	st := func(k int64) []int64 { return []int64{1, k} }
+	rel := func(id, c int64) []int64 { return []int64{2, id, c} }
+	rd := func(id int64) []int64 { return []int64{6, id} }
+	cc := func(id int64) []int64 { return []int64{5, id} }
+	switch idx {
+	case 10: // GracefulStop waits for handlers, refuses new RPCs, clients get the handlers' statuses
+		return []int64{2, 0, 0}, [][]int64{st(0), st(0), rel(0, 0), G, st(0), rel(1, 5), st(0), G, S}
+	case 11: // response blocked by flow control while GracefulStop runs (stream workers on)
+		return []int64{2, 2, 0}, [][]int64{st(0), st(1), rel(1, 0), G, rd(1), rel(0, 3)}
+	case 12: // handler dispatched to a stream worker outlives its stream: GracefulStop must wait for it
+		return []int64{2, 2, 0}, [][]int64{st(2), st(0), cc(0), cc(1), G, st(0), rel(0, 0), rel(1, 0)}
+	case 13: // Stop: contexts cancelled, unfinished RPCs non-OK, also the one whose response was blocked
+		return []int64{2, 0, 0}, [][]int64{st(0), st(1), st(2), rel(1, 0), S, rel(2, 3), rd(1), st(0), G, cc(0)}
+	case 14: // WaitForHandlers
+		return []int64{2, 0, 1}, [][]int64{st(2), st(1), rel(1, 0), cc(1), S, G, rd(1), rel(0, 3), G}
+	case 15: // blocked response alone keeps GracefulStop waiting; Stop during GracefulStop
+		return []int64{2, 1, 0}, [][]int64{st(1), rel(0, 4), G, G, st(1), rd(1), S, cc(0), rd(0)}
+	case 16:
+		return []int64{2, 4, 0}, [][]int64{st(1), rel(0, 0), G, rd(0), st(0)}
+	}
+	if idx%2 == 0 {
+		n := int64(0)
+		k := 8 + r.Intn(24)
+		stopAt := 2 + r.Intn(k)
+		for i := 0; i < k; i++ {
+			x := r.Intn(100)
+			if i == stopAt {
+				x = 80 + r.Intn(13)
+			}
+			switch {
+			case x < 30 && n < 12:
+				ops = append(ops, st(r.PickI64(0, 0, 1, 1, 2)))
+				n++
+			case x < 58 && n > 0:
+				ops = append(ops, rel(r.I64n(n), r.PickI64(0, 0, 0, 3, 5, 13)))
+			case x < 70 && n > 0:
+				ops = append(ops, rd(r.I64n(n)))
+			case x < 78 && n > 0:
+				ops = append(ops, cc(r.I64n(n)))
+			case x < 88:
+				ops = append(ops, G)
+			case x < 93:
+				ops = append(ops, S)
+			case x < 96:
+				ops = append(ops, [][]int64{{1, 3}, {2, 99, 0}, {2, 0, 17}, {6, -1}, {5, 64}, {7}, {}}[r.Intn(7)])
+			default:
+				ops = append(ops, st(0))
+				n++
+			}
+		}
+		return []int64{2, r.PickI64(0, 0, 1, 2, 4), r.PickI64(0, 0, 1)}, ops
+	}
 	n := r.PickI64(1, 1, 2, 3, 5)
 	k := 20 + r.Intn(100)
 	pa := 40 + r.Intn(30)
@@ -196,5 +578,5 @@ func vServerStopGen(r *vRand, tier string, idx int) (cfg []int64, ops [][]int64)
 
 func TestVerif_ServerStop(t *testing.T) {
 	vServerStopT = t
-	vRunDriver(t, "ServerStop", 40, 800, vServerStopGen, vServerStopExec)
+	vRunDriver(t, "ServerStop", 70, 1200, vServerStopGen, vServerStopExec)
 }
